@@ -7,7 +7,7 @@ BUILT = ["C01", "C02", "C03", "C04", "C05", "C06", "C07", "C08", "C09", "C10", "
 # id -> (category, technique, level text, level note, design ref)
 P = {
  "C01": ("exploration", "reference-model monitor (independent float64 EOTFs) over the exhaustively enumerated code space of every public decode entry point",
-         "Every 8-bit and 16-bit code of every space is pushed through every public decode entry point and each returned value is compared with an independent float64 EOTF, plus exact end points, strict monotonicity and 8-bit==16-bit(257v). The input space is finite and is enumerated completely in both tiers, so the verdict covers every execution of these entry points on opaque colours.",
+         "Every 8-bit and 16-bit code of every space is pushed through every public decode entry point and each returned value is compared with an independent float64 EOTF, plus exact end points, strict monotonicity and 8-bit==16-bit(257v); the whole opaque 8-bit colour cube goes through the three pixel constructors of every space (each channel must decode as it does alone). The input space is finite and is enumerated completely in both tiers, so the verdict covers every execution of these entry points on opaque colours.",
          "Trusted: the transcription of the published EOTFs in harness/internal/refcolor; Go's math.Pow.", "DESIGN.md §3 C01"),
  "C02": ("exploration", "reference-model monitor (interval law from independent float64 OETFs) over bucket boundaries / every float32 in [0,1]; recover() around each call",
          "Each encoder result is checked against the interval the published OETF allows within half a table step and half a code, clipping and monotonicity are checked along ascending float32 sequences; thorough enumerates every float32 bit pattern in [0,1] per encoder.",
@@ -37,10 +37,10 @@ P = {
          "Cross product of source types x destination types x geometries x parallelisms x transforms; every byte of the destination parent buffer is compared with a model built from At/Set.",
          "Trusted: image/color models of the standard library.", "DESIGN.md §3 C10"),
  "C11": ("exploration", "Go race detector over fresh-process first-use trials + value comparison against sequential results",
-         "Each trial is a fresh process under -race in which N goroutines make their first calls into one target set simultaneously; race reports with a prism frame and any value differing from the sequential value are violations; for the rejects target every outcome (values, error text, replayed bytes) is also compared with the same load made as the only call of a process of its own.",
+         "Each trial is a fresh process under -race in which N goroutines make their first calls into one target set simultaneously; race reports with a prism frame and any value differing from the sequential value are violations; for the rejects target every outcome (values, error text, replayed bytes) is also compared with the same load made as the only call of a process of its own; a trial in which every goroutine is parked and none can run is reported as a deadlock with its goroutine dump.",
          "Trusted: the race detector's happens-before analysis; schedules with unobserved synchronisation shapes are out of reach.", "DESIGN.md §3 C11"),
  "C12": ("exploration", "reference-model monitor: independent float64 Bradford adaptation; algebraic laws on white-point pairs and triples",
-         "All ordered pairs of a white-point set are compared entry-wise with the float64 Bradford matrix, white->white, identity, inverse, composition and constructor agreement are observed.",
+         "All ordered pairs of a white-point set are compared entry-wise with the float64 Bradford matrix, white->white, identity, inverse, composition and constructor agreement are observed; 2^26 (thorough 2^30) distinct white pairs are requested in one process, each judged on its own white.",
          "Trusted: published Bradford matrix in refcolor.", "DESIGN.md §3 C12"),
  "C13": ("exploration", "reference-model monitor: CIE 1976 definition in float64, junction sweeps, round trips",
          "XYZ/Lab lattices, random points and dense sweeps through the junction are compared with the float64 definition; monotonicity, continuity, achromatic axis and finiteness are observed.",
